@@ -37,6 +37,7 @@ type Params struct {
 	CloseAny        bool            // AsyncClose enabled at every decision point after the first submit
 	LastAfter       bool            // the last message is submitted only after the first outcome event
 	Icpt            int             // number of interceptors (counting + header-appending)
+	Tomb            int             // >0: message number Tomb (1-based) is a tombstone: nil Value, its id travels in the key
 	IcptPanic       int             // >0: the interceptor at this (1-based) position of the chain panics after doing its work
 	Election        bool            // partition 0 goes through a leader election (env:leader-down / env:leader-up)
 	Big             int             // >0: message number Big (1-based) is larger than Producer.MaxMessageBytes (set to 200)
@@ -63,7 +64,7 @@ func Parse(v url.Values) (*Params, error) {
 		Idem: atoi(v, "idem", 0) == 1, RetryMax: atoi(v, "rm", 1), NMsgs: atoi(v, "nm", 2), NParts: atoi(v, "np", 1),
 		NBrokers: atoi(v, "nb", 1), FlushMsgs: atoi(v, "fm", 0), FlushMax: atoi(v, "fx", 0), FlushFreq: time.Duration(atoi(v, "ff", 0)) * time.Millisecond,
 		Backoff: time.Duration(atoi(v, "bo", 0)) * time.Millisecond, Policy: v.Get("policy"), CloseAny: atoi(v, "closeany", 0) == 1,
-		LastAfter: atoi(v, "lastafter", 0) == 1, Big: atoi(v, "big", 0), Election: atoi(v, "election", 0) >= 1, ElectionAtStart: atoi(v, "election", 0) == 2, Icpt: atoi(v, "icpt", 0), IcptPanic: atoi(v, "icptpanic", 0),
+		LastAfter: atoi(v, "lastafter", 0) == 1, Big: atoi(v, "big", 0), Election: atoi(v, "election", 0) >= 1, ElectionAtStart: atoi(v, "election", 0) == 2, Icpt: atoi(v, "icpt", 0), Tomb: atoi(v, "tomb", 0), IcptPanic: atoi(v, "icptpanic", 0),
 		Acks: sarama.RequiredAcks(atoi(v, "acks", 1)), Sync: atoi(v, "sync", 0),
 	}
 	if p.Policy == "" {
@@ -177,7 +178,8 @@ type rig struct {
 	icptLog   []string
 	seqEpoch  int16
 	seqLog    []seqAssign
-	election  int // 0 not started, 1 partition 0 leaderless, 2 over
+	subAt     []int // subAt[i]: len(events) at the moment message i was submitted
+	election  int   // 0 not started, 1 partition 0 leaderless, 2 over
 	oldLeader int32
 	submitted int
 	accepted  int
@@ -373,9 +375,13 @@ func (r *rig) actors() []gx.Actor {
 			acts = append(acts, gx.Actor{Label: "submit:" + msgID(i), Rank: rank, Variants: []gx.Variant{{Do: func() {
 				r.mu.Lock()
 				r.submitted++
+				r.subAt = append(r.subAt, len(r.events)) // how many terminal events had been delivered when message i was submitted
 				r.mu.Unlock()
 				id := msgID(i)
 				msg := &sarama.ProducerMessage{Topic: "t", Partition: p.Parts[i], Value: sarama.StringEncoder(id), Metadata: id}
+				if p.Tomb == i+1 {
+					msg.Value = nil // a tombstone (Encoder interface left nil)
+				}
 				if p.Big == i+1 {
 					// one message larger than Producer.MaxMessageBytes: the dispatcher must reject it with an error
 					msg.Value = sarama.StringEncoder(id + strings.Repeat("x", 400))
@@ -535,6 +541,9 @@ func indexOf(l []*sarama.ProducerMessage, m *sarama.ProducerMessage) (int, bool)
 // KeyOf / HeadersOf: the key and headers message i is submitted with (kv=1: odd messages carry a
 // key - every fourth an empty one -, every third message headers when the format has them).
 func (p *Params) KeyOf(i int) []byte {
+	if p.Tomb == i+1 {
+		return []byte(msgID(i))
+	}
 	if !p.KV || i%2 == 0 {
 		return nil
 	}
